@@ -768,6 +768,84 @@ def explicit_rule(ctx, r):
         r.bad("is_explicit", "Haystack::is_explicit: %s" % detail, fn=f)
 
 
+
+ORDER_KEEPING = ("core::iter::traits::collect::IntoIterator::into_iter", "[T]::iter", "core::slice::<impl [T]>::iter",
+                 "core::ops::deref::Deref::deref", "alloc::vec::Vec::as_slice", "alloc::vec::Vec::iter",
+                 "core::iter::traits::iterator::Iterator::collect", "core::iter::traits::iterator::Iterator::cloned",
+                 "core::iter::traits::iterator::Iterator::copied", "core::clone::Clone::clone", "[T]::to_vec",
+                 "alloc::slice::<impl [T]>::to_vec", "core::iter::traits::iterator::Iterator::by_ref",
+                 "core::iter::traits::iterator::Iterator::enumerate", "core::iter::traits::iterator::Iterator::peekable")
+
+
+def order_rule(r, f, owner, field, why):
+    """Every for-loop of `f` whose elements come from `owner.field` visits them in the stored order: the chain from the field
+    to the iterator consists of order-keeping calls only and no collection on the way is mutated in place."""
+    nx = [c for c in f.calls() if c.path == "core::iter::traits::iterator::Iterator::next"]
+    defs = f.defs()
+    found = 0
+    for c in nx:
+        a = op_place(c.args[0])
+        seen, todo, calls_, bad_, root = set(), [a["l"]] if a else [], [], [], False
+        while todo:
+            l = todo.pop()
+            if l in seen:
+                continue
+            seen.add(l)
+            ds = defs.get(l, [])
+            for d in ds:
+                if d[0] == "assign":
+                    rv = d[3]["rv"]
+                    if rv["k"] in ("ref", "rawptr"):
+                        pl = rv["place"]
+                        if any(isinstance(x, dict) and x.get("f") == field and x.get("of") == owner for x in pl["p"]):
+                            root = True
+                        else:
+                            todo.append(pl["l"])
+                    elif rv["k"] == "use" and op_place(rv["a"]) is not None:
+                        pl = op_place(rv["a"])
+                        if any(isinstance(x, dict) and x.get("f") == field and x.get("of") == owner for x in pl["p"]):
+                            root = True
+                        else:
+                            todo.append(pl["l"])
+                    else:
+                        bad_.append("computed value (%s)" % rv["k"])
+                elif d[0] == "call":
+                    for x in [d[2]]:
+                        if x.path in ORDER_KEEPING and x.args:
+                            calls_.append(x.path.rsplit("::", 1)[1])
+                            pa = op_place(x.args[0])
+                            if pa is not None:
+                                todo.append(pa["l"])
+                        else:
+                            bad_.append(x.path)
+        if not root:
+            continue
+        found += 1
+        # an intermediate collection that is borrowed mutably (sort, reverse, retain, swap, dedup …) is reordered in place
+        itl = set()
+        l0 = a["l"]
+        while True:
+            itl.add(l0)
+            nxt = [d[3]["rv"]["place"]["l"] for d in defs.get(l0, []) if d[0] == "assign" and d[3]["rv"]["k"] == "ref"]
+            if not nxt:
+                break
+            l0 = nxt[0]
+            if l0 in itl:
+                break
+        mutb = set()
+        for bb, j, st in f.stmts():
+            if st["k"] == "assign" and st["rv"]["k"] in ("ref", "rawptr") and st["rv"].get("mut", True) and "deref" not in st["rv"]["place"]["p"]:
+                if st["rv"]["place"]["l"] in seen and st["rv"]["place"]["l"] not in itl:
+                    mutb.add(st["rv"]["place"]["l"])
+        if bad_ or mutb:
+            r.bad("order|" + field, "%s does not visit %s in its stored order (%s): %s" % (
+                f.name.split("::")[-1], field, ", ".join(bad_ + ["local _%d is modified in place before the loop" % l for l in sorted(mutb)]), why),
+                fn=f, loc=c.loc, construct="order")
+        else:
+            r.ok("order|" + field, "loop over %s: %s — order kept" % (field, " ∘ ".join(calls_) or "direct"), fn=f)
+    if not found:
+        r.bad("order|" + field, "anchor-missing: no loop over %s.%s in %s" % (owner.split("::")[-1], field, f.name), fn=f)
+
 def run(ctx):
     facts = ctx.facts
     with ctx.rule("C05.BASE", "parent matchers and candidate paths are re-based on the search root they belong to", floor=3,
@@ -925,6 +1003,12 @@ def run(ctx):
                       construct="types-dir")
         else:
             r.bad("types|dir", "Types::matched no longer answers Match::None for directories", fn=tm, construct="types-dir")
+    with ctx.rule("C05.TYPEORDER", "--type-add / --type-clear / -t / -T take effect in the order given: the builder is fed "
+                  "LowArgs::type_changes front to back", floor=1, kind="FLOW") as r:
+        ty = facts.fn("rg::flags::hiargs::types")
+        order_rule(r, ty, "rg::flags::lowargs::LowArgs", "type_changes",
+                   "a definition changed after a selection (-tfoo --type-add 'foo:*.bar', --type-clear after -t) must not reach back: "
+                   "the set of selected files would differ from the documented left-to-right reading")
     with ctx.rule("C05.NAME", "an entry has no file name only when its path is empty or its final component was examined", floor=3,
                   kind="GUARD") as r:
         from . import c12
